@@ -44,6 +44,13 @@ func (wrapper DelegationHooksWrapper) AfterUndelegationStarted(
 	) {
 		// if the operator is opting out, we need to use the finish epoch of the opt out.
 		unbondingCompletionEpoch = wrapper.keeper.GetOperatorOptOutFinishEpoch(ctx, operator)
+		if unbondingCompletionEpoch < 0 {
+			// the opt out is being completed in this very block: its finish epoch was consumed
+			// when the epoch ended (BeginBlock) and the key removal completes in EndBlock.
+			// there is nothing left to wait for, so the undelegation is not held. (looking up
+			// the queue of epoch -1 would panic and reject the undelegation.)
+			return nil
+		}
 		// even if the operator opts back in, the undelegated vote power does not reappear
 		// in the picture. slashable events between undelegation and opt in cannot occur
 		// because the operator is not in the validator set.
